@@ -169,7 +169,10 @@ class ServerConfig:
             return None
 
         if not (self.access_control_allow_list or self.access_control_deny_list):
-            return None
+            # Without lists only the default policy is left: "allow" needs no
+            # middleware, but "deny" must still be enforced
+            if self.access_control_default_allow:
+                return None
 
         return AccessControlConfig(
             allow_list=self.access_control_allow_list,
